@@ -219,11 +219,17 @@ def check_graph(g, res=None):
             oc = c.get_connection('other')
             oc.root()[name] = nodes[name]
             oc.add(nodes[name])
+        wrapped = {}
+
         def attach():
             for src, dst, placement in g.edges:
                 kind = 'PM' if src == 'root' else g.kinds[src]
-                put(nodes[src], kind, 'e_' + dst,
-                    wrap(nodes[dst], placement))
+                # the very same values (weak reference objects) when the
+                # objects are attached a second time
+                key = (src, dst, placement)
+                if key not in wrapped:
+                    wrapped[key] = wrap(nodes[dst], placement)
+                put(nodes[src], kind, 'e_' + dst, wrapped[key])
             for name in g.added:
                 c.add(nodes[name])
         def program():
@@ -608,7 +614,15 @@ def special_graphs():
                         [('root', 'B', 'direct'), ('B', 'A', p)],
                         xdb=('A',))
     for ka, kb in itertools.product(('P', 'NA', 'PM'), repeat=2):
-        for p in PLACEMENTS:
+        for p in PLACEMENTS + ('weak',):
+            if p == 'weak':
+                # a weak reference next to the strong path, made before the
+                # rollback un-adds its target
+                yield Graph({'A': ka, 'B': kb},
+                            [('root', 'A', 'direct'), ('A', 'B', 'direct'),
+                             ('root', 'B', 'weak')],
+                            program='sp-reattach')
+                continue
             yield Graph({'A': ka, 'B': kb},
                         [('root', 'A', p), ('A', 'B', 'direct')],
                         program='sp-reattach')
